@@ -1125,6 +1125,28 @@ pub fn monitor(run: &Run) -> (Vec<Finding>, Stats) {
         if s.kt_start == 0. && sc < s0 {
             v.push(Finding { property: "C05", what: format!("final score {:?} below the input score {:?} at kt_start = 0", sc, s0) });
         }
+        // C05 on the RETURNED state itself (not the scores the optimiser believes it holds): for the scripts that are
+        // pure functions of the parameters, re-score the returned parameters and compare with the input's score
+        {
+            let spec = Spec::parse(&run.spec);
+            let pure = match spec.get_or("script", "") { "smooth" => Some(false), "plateau" => Some(true), _ => None };
+            if let (Some(quant), Some(fv), true) = (pure, run.final_vec.as_ref(), s.kt_start == 0. && s.kt_start.is_sign_positive()) {
+                let sseed = spec.u_or("sseed", 1);
+                let val = |v: &[f64]| smooth_value(sseed, v).map(|x| if quant { (x * 40.).floor() / 40. } else { x });
+                let n = run.init.len().min(fv.len());
+                match (val(&run.init[..n]), val(&fv[..n])) {
+                    (Some(a), Some(b)) if b < a => v.push(Finding {
+                        property: "C05",
+                        what: format!("the returned state scores {:?}, the input scored {:?} (kt_start = 0)", b, a),
+                    }),
+                    (Some(a), None) => v.push(Finding {
+                        property: "C05,C08",
+                        what: format!("the returned state has no score, the input scored {:?}", a),
+                    }),
+                    _ => {}
+                }
+            }
+        }
         // C20: with a convergence threshold the run stops exactly after the first loop that makes
         // more than five consecutive loops each improving by less than the threshold
         if let (Some(eps), true) = (s.conv, inner > 0) {
